@@ -87,7 +87,15 @@ ProgramsVerdict(pf, ps) ==
     ELSE IF \A p \in ToSet(ps) : ApprovedProgram(p) THEN "valid"
     ELSE "invalid"
 
-Verdicts(r) == {WeekVerdict(r.week), ConfigVerdict(r.config), XVerdict(r.x), ProgramsVerdict(r.pform, r.programs)}
+(* Layouts in which the body is more than one plain report object: bytes     *)
+(* after the first JSON value ("trailing"), a field no report has            *)
+(* ("unknown"), a key written twice ("dupkey").  Whether such a request is   *)
+(* accepted is not specified -- but if it is, the stored object is still ONE *)
+(* JSON value, with report fields only, each once, that decodes to the       *)
+(* report the server validated (the first value; the last of two equal keys).*)
+LooseLayouts == {"trailing", "unknown", "dupkey"}
+LayoutVerdict(r) == IF r.layout \in LooseLayouts THEN "unspecified" ELSE "valid"
+Verdicts(r) == {WeekVerdict(r.week), ConfigVerdict(r.config), XVerdict(r.x), ProgramsVerdict(r.pform, r.programs), LayoutVerdict(r)}
 
 (* The size clause: "bodies over the size limit are refused".  r.len is the   *)
 (* number of body bytes the request carries.  Whether the sender announced   *)
@@ -104,6 +112,7 @@ ASSUME SizeClauseIgnoresDeclaration
 (* body is anything else (not JSON, truncated, wrong types, not an object)   *)
 Decision(r) ==
     IF r.method # "POST" THEN "reject"
+    ELSE IF TooLarge(r) /\ r.layout = "trailing" THEN "either"   \* the report itself may fit: only the bytes after it exceed the limit
     ELSE IF TooLarge(r) THEN "reject"
     ELSE IF r.kind # "report" THEN "reject"
     ELSE IF "invalid" \in Verdicts(r) THEN "reject"
